@@ -77,6 +77,23 @@ type n =
 | N0
 | Npos of positive
 
+module Nat =
+ struct
+  (** val leb : nat -> nat -> bool **)
+
+  let rec leb n0 m =
+    match n0 with
+    | O -> true
+    | S n' -> (match m with
+               | O -> false
+               | S m' -> leb n' m')
+
+  (** val ltb : nat -> nat -> bool **)
+
+  let ltb n0 m =
+    leb (S n0) m
+ end
+
 module Pos =
  struct
   type mask =
@@ -146,6 +163,13 @@ module Coq_Pos =
   | XI p -> XO p
   | XO p -> pred_double p
   | XH -> XH
+
+  (** val pred_N : positive -> n **)
+
+  let pred_N = function
+  | XI p -> Npos (XO p)
+  | XO p -> Npos (pred_double p)
+  | XH -> N0
 
   type mask = Pos.mask =
   | IsNul
@@ -221,6 +245,11 @@ module Coq_Pos =
   | XO n' -> iter f (iter f x n') n'
   | XH -> f x
 
+  (** val pow : positive -> positive -> positive **)
+
+  let pow x =
+    iter (mul x) XH
+
   (** val compare_cont : comparison -> positive -> positive -> comparison **)
 
   let rec compare_cont r x y =
@@ -288,6 +317,24 @@ module Coq_Pos =
              | XO q0 -> XI q0
              | _ -> q)
 
+  (** val coq_land : positive -> positive -> n **)
+
+  let rec coq_land p q =
+    match p with
+    | XI p0 ->
+      (match q with
+       | XI q0 -> coq_Nsucc_double (coq_land p0 q0)
+       | XO q0 -> coq_Ndouble (coq_land p0 q0)
+       | XH -> Npos XH)
+    | XO p0 ->
+      (match q with
+       | XI q0 -> coq_Ndouble (coq_land p0 q0)
+       | XO q0 -> coq_Ndouble (coq_land p0 q0)
+       | XH -> N0)
+    | XH -> (match q with
+             | XO _ -> N0
+             | _ -> Npos XH)
+
   (** val coq_lxor : positive -> positive -> n **)
 
   let rec coq_lxor p q =
@@ -307,6 +354,12 @@ module Coq_Pos =
        | XI q0 -> Npos (XO q0)
        | XO q0 -> Npos (XI q0)
        | XH -> N0)
+
+  (** val shiftl : positive -> n -> positive **)
+
+  let shiftl p = function
+  | N0 -> p
+  | Npos n1 -> iter (fun x -> XO x) p n1
 
   (** val iter_op : ('a1 -> 'a1 -> 'a1) -> positive -> 'a1 -> 'a1 **)
 
@@ -355,6 +408,12 @@ module N =
   let succ = function
   | N0 -> Npos XH
   | Npos p -> Npos (Coq_Pos.succ p)
+
+  (** val pred : n -> n **)
+
+  let pred = function
+  | N0 -> N0
+  | Npos p -> Coq_Pos.pred_N p
 
   (** val add : n -> n -> n **)
 
@@ -452,6 +511,14 @@ module N =
   let odd n0 =
     negb (even n0)
 
+  (** val pow : n -> n -> n **)
+
+  let pow n0 = function
+  | N0 -> Npos XH
+  | Npos p0 -> (match n0 with
+                | N0 -> N0
+                | Npos q -> Npos (Coq_Pos.pow q p0))
+
   (** val pos_div_eucl : positive -> n -> n * n **)
 
   let rec pos_div_eucl a b =
@@ -499,6 +566,15 @@ module N =
                  | N0 -> n0
                  | Npos q -> Npos (Coq_Pos.coq_lor p q))
 
+  (** val coq_land : n -> n -> n **)
+
+  let coq_land n0 m =
+    match n0 with
+    | N0 -> N0
+    | Npos p -> (match m with
+                 | N0 -> N0
+                 | Npos q -> Coq_Pos.coq_land p q)
+
   (** val coq_lxor : n -> n -> n **)
 
   let coq_lxor n0 m =
@@ -507,6 +583,13 @@ module N =
     | Npos p -> (match m with
                  | N0 -> n0
                  | Npos q -> Coq_Pos.coq_lxor p q)
+
+  (** val shiftl : n -> n -> n **)
+
+  let shiftl a n0 =
+    match a with
+    | N0 -> N0
+    | Npos a0 -> Npos (Coq_Pos.shiftl a0 n0)
 
   (** val shiftr : n -> n -> n **)
 
@@ -530,7 +613,23 @@ module N =
     | Npos p -> (match m with
                  | N0 -> false
                  | Npos p0 -> Coq_Pos.eq_dec p p0)
+
+  (** val ones : n -> n **)
+
+  let ones n0 =
+    pred (shiftl (Npos XH) n0)
  end
+
+(** val nth : nat -> 'a1 list -> 'a1 -> 'a1 **)
+
+let rec nth n0 l default =
+  match n0 with
+  | O -> (match l with
+          | [] -> default
+          | x :: _ -> x)
+  | S m -> (match l with
+            | [] -> default
+            | _ :: t -> nth m t default)
 
 (** val removelast : 'a1 list -> 'a1 list **)
 
@@ -588,6 +687,12 @@ let rec fold_right f a0 = function
 let rec existsb f = function
 | [] -> false
 | a :: l0 -> (||) (f a) (existsb f l0)
+
+(** val forallb : ('a1 -> bool) -> 'a1 list -> bool **)
+
+let rec forallb f = function
+| [] -> true
+| a :: l0 -> (&&) (f a) (forallb f l0)
 
 (** val filter : ('a1 -> bool) -> 'a1 list -> 'a1 list **)
 
@@ -977,12 +1082,12 @@ let fl_get l h m =
 (** val fl_replace :
     (slot -> bool) -> slot -> flat -> (flat * slot) option **)
 
-let rec fl_replace hit new0 = function
+let rec fl_replace hit0 new0 = function
 | [] -> None
 | s :: l' ->
-  if hit s
+  if hit0 s
   then Some ((new0 :: l'), s)
-  else (match fl_replace hit new0 l' with
+  else (match fl_replace hit0 new0 l' with
         | Some p -> let (l'', o) = p in Some ((s :: l''), o)
         | None -> None)
 
@@ -996,12 +1101,12 @@ let fl_put _ l sl m =
 
 (** val fl_remove : (slot -> bool) -> flat -> (flat * slot) option **)
 
-let rec fl_remove hit = function
+let rec fl_remove hit0 = function
 | [] -> None
 | s :: l' ->
-  if hit s
+  if hit0 s
   then Some (l', s)
-  else (match fl_remove hit l' with
+  else (match fl_remove hit0 l' with
         | Some p -> let (l'', o) = p in Some ((s :: l''), o)
         | None -> None)
 
@@ -1039,6 +1144,256 @@ let flat_ops =
   { ix_empty = []; ix_get = fl_get; ix_put = fl_put; ix_del = fl_del;
     ix_repoint = fl_repoint; ix_count = nlen; ix_nbuckets = (fun _ -> Npos
     XH); ix_bucket = (fun l n0 -> if N.eqb n0 N0 then l else []) }
+
+(** val lupd : nat -> 'a1 -> 'a1 list -> 'a1 list **)
+
+let rec lupd n0 x = function
+| [] -> []
+| y :: l' -> (match n0 with
+              | O -> x :: l'
+              | S n' -> y :: (lupd n' x l'))
+
+(** val bucket_index : n -> n -> n -> n **)
+
+let bucket_index level split h =
+  let b = N.coq_land h (N.ones level) in
+  if N.ltb b split then N.coq_land h (N.ones (N.add level (Npos XH))) else b
+
+(** val advance : n -> n -> n * n **)
+
+let advance level split =
+  if N.eqb (N.add split (Npos XH)) (N.pow (Npos (XO XH)) level)
+  then ((N.add level (Npos XH)), N0)
+  else (level, (N.add split (Npos XH)))
+
+(** val cap : nat **)
+
+let cap =
+  S (S (S (S (S (S (S (S (S (S (S (S (S (S (S (S (S (S (S (S (S (S (S (S (S
+    (S (S (S (S (S (S O))))))))))))))))))))))))))))))
+
+type bucket = slot list
+
+type chain = bucket list
+
+(** val hit : n -> (slot -> bool) -> slot -> bool **)
+
+let hit h m s =
+  (&&) (N.eqb s.sl_h h) (m s)
+
+(** val rp_hit : n -> n -> n -> slot -> bool **)
+
+let rp_hit h seg off s =
+  (&&) ((&&) (N.eqb s.sl_h h) (N.eqb s.sl_off off)) (N.eqb s.sl_seg seg)
+
+(** val rp_new : n -> n -> slot -> slot **)
+
+let rp_new nseg noff s =
+  { sl_h = s.sl_h; sl_seg = nseg; sl_ks = s.sl_ks; sl_vs = s.sl_vs; sl_off =
+    noff }
+
+(** val chain_find : (slot -> bool) -> chain -> slot option **)
+
+let rec chain_find f = function
+| [] -> None
+| b :: c' -> (match find f b with
+              | Some s -> Some s
+              | None -> chain_find f c')
+
+(** val bucket_subst :
+    (slot -> bool) -> (slot -> slot list) -> bucket -> (bucket * slot) option **)
+
+let rec bucket_subst f g = function
+| [] -> None
+| s :: b' ->
+  if f s
+  then Some ((app (g s) b'), s)
+  else (match bucket_subst f g b' with
+        | Some p -> let (b'', o) = p in Some ((s :: b''), o)
+        | None -> None)
+
+(** val chain_subst :
+    (slot -> bool) -> (slot -> slot list) -> chain -> (chain * slot) option **)
+
+let rec chain_subst f g = function
+| [] -> None
+| b :: c' ->
+  (match bucket_subst f g b with
+   | Some p -> let (b', o) = p in Some ((b' :: c'), o)
+   | None ->
+     (match chain_subst f g c' with
+      | Some p -> let (c'', o) = p in Some ((b :: c''), o)
+      | None -> None))
+
+(** val insert_free : slot -> chain -> chain **)
+
+let rec insert_free new0 = function
+| [] -> (new0 :: []) :: []
+| b :: c' ->
+  if Nat.ltb (length b) cap
+  then (app b (new0 :: [])) :: c'
+  else b :: (insert_free new0 c')
+
+(** val chain_put : (slot -> bool) -> slot -> chain -> chain * slot option **)
+
+let chain_put f new0 c =
+  match chain_subst f (fun _ -> new0 :: []) c with
+  | Some p -> let (c', o) = p in (c', (Some o))
+  | None -> ((insert_free new0 c), None)
+
+(** val sw_insert : slot -> chain -> chain **)
+
+let rec sw_insert s = function
+| [] -> (s :: []) :: []
+| b :: c' ->
+  (match c' with
+   | [] ->
+     if Nat.ltb (length b) cap
+     then (app b (s :: [])) :: []
+     else b :: ((s :: []) :: [])
+   | _ :: _ -> b :: (sw_insert s c'))
+
+(** val split_step :
+    n -> n -> n -> (chain * chain) -> slot -> chain * chain **)
+
+let split_step lv sp ub st0 s =
+  if N.eqb (bucket_index lv sp s.sl_h) ub
+  then ((sw_insert s (fst st0)), (snd st0))
+  else ((fst st0), (sw_insert s (snd st0)))
+
+type pindex = { px_level : n; px_split : n; px_nkeys : n;
+                px_chains : chain list }
+
+(** val px_level : pindex -> n **)
+
+let px_level p =
+  p.px_level
+
+(** val px_split : pindex -> n **)
+
+let px_split p =
+  p.px_split
+
+(** val px_nkeys : pindex -> n **)
+
+let px_nkeys p =
+  p.px_nkeys
+
+(** val px_chains : pindex -> chain list **)
+
+let px_chains p =
+  p.px_chains
+
+(** val px_empty : pindex **)
+
+let px_empty =
+  { px_level = N0; px_split = N0; px_nkeys = N0; px_chains =
+    (([] :: []) :: []) }
+
+(** val px_bidx : pindex -> n -> n **)
+
+let px_bidx p h =
+  bucket_index p.px_level p.px_split h
+
+(** val px_chain : pindex -> n -> chain **)
+
+let px_chain p n0 =
+  nth (N.to_nat n0) p.px_chains []
+
+(** val px_set : pindex -> n -> chain -> n -> pindex **)
+
+let px_set p n0 c nk =
+  { px_level = p.px_level; px_split = p.px_split; px_nkeys = nk; px_chains =
+    (lupd (N.to_nat n0) c p.px_chains) }
+
+(** val px_count : pindex -> n **)
+
+let px_count p =
+  p.px_nkeys
+
+(** val px_nbuckets : pindex -> n **)
+
+let px_nbuckets p =
+  nlen p.px_chains
+
+(** val px_bucket : pindex -> n -> slot list **)
+
+let px_bucket p n0 =
+  concat (nth (N.to_nat n0) p.px_chains [])
+
+(** val px_get : pindex -> n -> (slot -> bool) -> slot option **)
+
+let px_get p h m =
+  chain_find (hit h m) (px_chain p (px_bidx p h))
+
+(** val px_dosplit : pindex -> pindex **)
+
+let px_dosplit p =
+  let ub = p.px_split in
+  let adv = advance p.px_level p.px_split in
+  let st0 =
+    fold_left (split_step (fst adv) (snd adv) ub) (concat (px_chain p ub))
+      (([] :: []), ([] :: []))
+  in
+  { px_level = (fst adv); px_split = (snd adv); px_nkeys = p.px_nkeys;
+  px_chains =
+  (app (lupd (N.to_nat ub) (fst st0) p.px_chains) ((snd st0) :: [])) }
+
+(** val px_put_core :
+    pindex -> slot -> (slot -> bool) -> pindex * slot option **)
+
+let px_put_core p sl m =
+  let b = px_bidx p sl.sl_h in
+  let r = chain_put (hit sl.sl_h m) sl (px_chain p b) in
+  (match snd r with
+   | Some o -> ((px_set p b (fst r) p.px_nkeys), (Some o))
+   | None -> ((px_set p b (fst r) (N.add p.px_nkeys (Npos XH))), None))
+
+(** val px_put_with :
+    (pindex -> slot -> (slot -> bool) -> pindex * slot option) -> (n -> n ->
+    bool) -> pindex -> slot -> (slot -> bool) -> pindex * slot option **)
+
+let px_put_with core grow p sl m =
+  let r = core p sl m in
+  (match snd r with
+   | Some o -> ((fst r), (Some o))
+   | None ->
+     ((if grow (fst r).px_nkeys (nlen (fst r).px_chains)
+       then px_dosplit (fst r)
+       else fst r), None))
+
+(** val px_put :
+    (n -> n -> bool) -> pindex -> slot -> (slot -> bool) -> pindex * slot
+    option **)
+
+let px_put =
+  px_put_with px_put_core
+
+(** val px_del : pindex -> n -> (slot -> bool) -> pindex * slot option **)
+
+let px_del p h m =
+  let b = px_bidx p h in
+  (match chain_subst (hit h m) (fun _ -> []) (px_chain p b) with
+   | Some p0 ->
+     let (c', o) = p0 in
+     ((px_set p b c' (N.sub p.px_nkeys (Npos XH))), (Some o))
+   | None -> (p, None))
+
+(** val px_repoint : pindex -> n -> n -> n -> n -> n -> pindex option **)
+
+let px_repoint p h seg off nseg noff =
+  let b = px_bidx p h in
+  (match chain_subst (rp_hit h seg off) (fun s -> (rp_new nseg noff s) :: [])
+           (px_chain p b) with
+   | Some p0 -> let (c', _) = p0 in Some (px_set p b c' p.px_nkeys)
+   | None -> None)
+
+(** val chain_ops : pindex idx_ops **)
+
+let chain_ops =
+  { ix_empty = px_empty; ix_get = px_get; ix_put = px_put; ix_del = px_del;
+    ix_repoint = px_repoint; ix_count = px_count; ix_nbuckets = px_nbuckets;
+    ix_bucket = px_bucket }
 
 type smap = (key * val0) list
 
@@ -2360,3 +2715,201 @@ let db_backup s =
           | None -> None)
        in go (backup_plan m))
   | None -> None
+
+(** val insert_dseg_seq : dseg -> dseg list -> dseg list **)
+
+let rec insert_dseg_seq f l = match l with
+| [] -> f :: []
+| x :: l' ->
+  if N.ltb f.f_seq x.f_seq then f :: l else x :: (insert_dseg_seq f l')
+
+(** val dby_seq : dseg list -> dseg list **)
+
+let dby_seq l =
+  fold_left (fun acc f -> insert_dseg_seq f acc) l []
+
+type entry = (n * n) * rec0
+
+(** val dseg_entries : dseg -> entry list **)
+
+let dseg_entries f =
+  map (fun p -> ((f.f_id, (fst p)), (snd p))) (seg_entries f)
+
+(** val olog : flat disk -> entry list **)
+
+let olog d =
+  concat (map dseg_entries (dby_seq d.d_segs))
+
+(** val apply_rec : smap -> entry -> smap **)
+
+let apply_rec m e =
+  let r = snd e in if r.rdel then sdel m r.rk else sput m r.rk r.rv
+
+(** val abs : flat disk -> smap **)
+
+let abs d =
+  fold_left apply_rec (olog d) []
+
+(** val upd_ptr :
+    (key -> (n * n) option) -> entry -> key -> (n * n) option **)
+
+let upd_ptr m e k =
+  if key_eqb k (snd e).rk
+  then if (snd e).rdel then None else Some ((fst (fst e)), (snd (fst e)))
+  else m k
+
+(** val ptr_of : flat disk -> key -> (n * n) option **)
+
+let ptr_of d =
+  fold_left upd_ptr (olog d) (fun _ -> None)
+
+(** val slot_key : flat disk -> slot -> key **)
+
+let slot_key d sl =
+  match read_kv d sl with
+  | Some p -> let (k, _) = p in k
+  | None -> []
+
+(** val forallb2 : ('a1 -> 'a1 -> bool) -> 'a1 list -> bool **)
+
+let forallb2 p l =
+  forallb (fun x -> forallb (p x) l) l
+
+(** val nodupb : ('a1 -> 'a1 -> bool) -> 'a1 list -> bool **)
+
+let rec nodupb eqb0 = function
+| [] -> true
+| x :: l' -> (&&) (negb (existsb (eqb0 x) l')) (nodupb eqb0 l')
+
+(** val rec_fits_b : rec0 -> bool **)
+
+let rec_fits_b r =
+  (&&)
+    ((&&)
+      ((&&)
+        (forallb (fun b ->
+          N.ltb b (Npos (XO (XO (XO (XO (XO (XO (XO (XO XH)))))))))) r.rk)
+        (forallb (fun b ->
+          N.ltb b (Npos (XO (XO (XO (XO (XO (XO (XO (XO XH)))))))))) r.rv))
+      (N.leb (nlen r.rk) max_key_len)) (N.leb (nlen r.rv) max_val_len)
+
+(** val tail_stuck_b : bytes -> bool **)
+
+let tail_stuck_b t =
+  let (p, _) = parse_tail t in
+  let (rs, n0) = p in (match rs with
+                       | [] -> N.eqb n0 N0
+                       | _ :: _ -> false)
+
+(** val dseg_ok_b : dseg -> bool **)
+
+let dseg_ok_b f =
+  (&&)
+    ((&&)
+      ((&&) ((&&) (forallb rec_fits_b f.f_recs) (tail_stuck_b f.f_tail))
+        (forallb (fun b ->
+          N.ltb b (Npos (XO (XO (XO (XO (XO (XO (XO (XO XH)))))))))) f.f_tail))
+      ((||) f.f_hdr
+        (match f.f_recs with
+         | [] -> (match f.f_tail with
+                  | [] -> true
+                  | _ :: _ -> false)
+         | _ :: _ -> false)))
+    (N.ltb (N.add header_size (recs_len f.f_recs)) (Npos (XO (XO (XO (XO (XO
+      (XO (XO (XO (XO (XO (XO (XO (XO (XO (XO (XO (XO (XO (XO (XO (XO (XO (XO
+      (XO (XO (XO (XO (XO (XO (XO (XO (XO XH))))))))))))))))))))))))))))))))))
+
+(** val disk_ok_b : flat disk -> bool **)
+
+let disk_ok_b d =
+  (&&)
+    ((&&) (forallb dseg_ok_b d.d_segs)
+      (nodupb N.eqb (map (fun d0 -> d0.f_id) d.d_segs)))
+    (nodupb N.eqb (map (fun d0 -> d0.f_seq) d.d_segs))
+
+(** val slot_ok_b : params -> flat disk -> n -> slot -> bool **)
+
+let slot_ok_b p d seed sl =
+  match find_dseg sl.sl_seg d with
+  | Some f ->
+    (match rec_at sl.sl_off (seg_entries f) with
+     | Some r ->
+       (&&)
+         ((&&) ((&&) (negb r.rdel) (N.eqb sl.sl_ks (nlen r.rk)))
+           (N.eqb sl.sl_vs (nlen r.rv))) (N.eqb sl.sl_h (p.p_hash seed r.rk))
+     | None -> false)
+  | None -> false
+
+(** val ptr_eqb : (n * n) option -> (n * n) option -> bool **)
+
+let ptr_eqb a b =
+  match a with
+  | Some p ->
+    let (x, y) = p in
+    (match b with
+     | Some p0 -> let (x', y') = p0 in (&&) (N.eqb x x') (N.eqb y y')
+     | None -> false)
+  | None -> (match b with
+             | Some _ -> false
+             | None -> true)
+
+(** val inv_b : params -> flat st -> bool **)
+
+let inv_b p s =
+  match s.s_mem with
+  | Some m ->
+    let d = s.s_disk in
+    (&&)
+      ((&&)
+        ((&&)
+          ((&&)
+            ((&&)
+              ((&&)
+                ((&&)
+                  ((&&)
+                    ((&&)
+                      ((&&)
+                        ((&&)
+                          ((&&) (disk_ok_b d)
+                            (forallb (fun g ->
+                              existsb (fun f ->
+                                (&&)
+                                  ((&&)
+                                    ((&&)
+                                      ((&&) (N.eqb f.f_id g.g_id)
+                                        (N.eqb f.f_seq g.g_seq)) f.f_hdr)
+                                    (match f.f_tail with
+                                     | [] -> true
+                                     | _ :: _ -> false))
+                                  (N.eqb (flen f) g.g_size)) d.d_segs)
+                              m.m_segs))
+                          (forallb (fun f ->
+                            existsb (fun g ->
+                              (&&) (N.eqb g.g_id f.f_id)
+                                (N.eqb g.g_seq f.f_seq)) m.m_segs) d.d_segs))
+                        (let rec inc = function
+                         | [] -> true
+                         | g :: l' ->
+                           (&&) (forallb (fun g' -> N.ltb g.g_id g'.g_id) l')
+                             (inc l')
+                         in inc m.m_segs))
+                      (forallb (fun g -> N.leb g.g_seq m.m_maxseq) m.m_segs))
+                    (forallb2 (fun g g' ->
+                      (||) g.g_meta.sm_full (N.leb g'.g_seq g.g_seq))
+                      m.m_segs))
+                  ((||) m.m_cur_removed
+                    (existsb (fun g ->
+                      (&&) (N.eqb g.g_id (fst m.m_cur))
+                        (N.eqb g.g_seq (snd m.m_cur))) m.m_segs)))
+                (forallb (slot_ok_b p d m.m_seed) m.m_idx))
+              (nodupb key_eqb (map (slot_key d) m.m_idx)))
+            (forallb (fun k ->
+              ptr_eqb (ptr_of d k)
+                (option_map (fun sl -> (sl.sl_seg, sl.sl_off))
+                  (find (fun sl -> key_eqb k (slot_key d sl)) m.m_idx)))
+              (app (map (fun e -> (snd e).rk) (olog d))
+                (map (slot_key d) m.m_idx)))) d.d_lock)
+        (match d.d_index with
+         | Some _ -> true
+         | None -> false)) d.d_overflow
+  | None -> disk_ok_b s.s_disk
